@@ -4,6 +4,7 @@ package main
 
 import (
 	"fmt"
+	"go/token"
 	"go/types"
 	"unicode/utf8"
 
@@ -222,13 +223,108 @@ func mapKeyName(mt *types.Map) string {
 	return sanitize(TE.SortOf(mt.Key()).Name) + "->" + sanitize(TE.SortOf(mt.Elem()).Name)
 }
 func mapDomName(mt *types.Map) string  { return "mapdom:" + mapKeyName(mt) }
-func mapValName(mt *types.Map) string  { return "mapval:" + mapKeyName(mt) }
+func mapValName(mt *types.Map) string {
+	n := "mapval:" + mapKeyName(mt)
+	if _, ok := heapValType[n]; !ok {
+		heapValType[n] = mt.Elem()
+	}
+	return n
+}
 func mapSizeName(mt *types.Map) string { return "mapsize:" + mapKeyName(mt) }
 
 func (x *Exec) mapSorts(mt *types.Map) (ks, vs, doms, vals *Sort) {
 	ks = TE.SortOf(mt.Key())
 	vs = TE.SortOf(mt.Elem())
 	return ks, vs, arraySort(ks, SBool), arraySort(ks, vs)
+}
+
+// Map keys that contain strings: Go compares keys by content, the string encoding (array, offset, length) does not.
+// Every string that becomes (part of) a map key is therefore replaced by a canonical representative canon(s) with
+//   s == canon(s)  (content),   canon(s) = canon(s')  <=>  s == s'  (content)
+// for all strings s, s' canonised in the same function (pairwise axioms; literals and keys produced by map iteration
+// are their own representatives).
+type canonStr struct{ orig, canon *Term }
+
+func typeHasString(t types.Type) bool {
+	switch u := t.Underlying().(type) {
+	case *types.Basic:
+		return u.Info()&types.IsString != 0
+	case *types.Struct:
+		for i := 0; i < u.NumFields(); i++ {
+			if typeHasString(u.Field(i).Type()) {
+				return true
+			}
+		}
+	case *types.Array:
+		return typeHasString(u.Elem())
+	}
+	return false
+}
+
+func (x *Exec) canonString(st *State, s *Term, self bool) *Term {
+	for _, c := range x.canonStrs {
+		if c.orig == s || c.canon == s {
+			return c.canon
+		}
+	}
+	c := s
+	if _, isLit := literalOf(s); !isLit && !self {
+		c = UF("str.canon", SStr, s)
+		x.ctx.assumeGlobal(st, x.strEqual(st, c, s))
+		x.ctx.assumeGlobal(st, Ge(strLen(c), IntLit(0)))
+	}
+	for _, o := range x.canonStrs {
+		x.ctx.assumeGlobal(st, Eq(Eq(c, o.canon), x.strEqual(st, s, o.orig)))
+	}
+	x.canonStrs = append(x.canonStrs, canonStr{orig: s, canon: c})
+	return c
+}
+
+// mapKey returns the key term under which k is stored in / looked up from the SMT arrays of a map.
+func (x *Exec) mapKey(st *State, k *Term, kt types.Type) *Term {
+	if !typeHasString(kt) {
+		return k
+	}
+	switch u := kt.Underlying().(type) {
+	case *types.Basic:
+		return x.canonString(st, k, false)
+	case *types.Struct:
+		var fs []*Term
+		for i := 0; i < u.NumFields(); i++ {
+			fs = append(fs, x.mapKey(st, TE.Field(kt, i, k), u.Field(i).Type()))
+		}
+		return TE.MkStruct(kt, fs)
+	}
+	unsupportedf("map key of type %s", kt)
+	return nil
+}
+
+// registerIterKey: a key produced by map iteration is an element of the domain, hence canonical already.
+func (x *Exec) registerIterKey(st *State, k *Term, kt types.Type) {
+	if !typeHasString(kt) {
+		return
+	}
+	switch u := kt.Underlying().(type) {
+	case *types.Basic:
+		x.canonString(st, k, true)
+	case *types.Struct:
+		for i := 0; i < u.NumFields(); i++ {
+			x.registerIterKey(st, TE.Field(kt, i, k), u.Field(i).Type())
+		}
+	}
+}
+
+func (x *Exec) mapDelete(st *State, m, k *Val, pos token.Pos) {
+	mt := m.Typ.Underlying().(*types.Map)
+	_, _, doms, _ := x.mapSorts(mt)
+	kk := x.mapKey(st, k.T, mt.Key())
+	dom := x.ctx.hread(st, mapDomName(mt), doms, m.T)
+	size := x.ctx.hread(st, mapSizeName(mt), SInt, m.T)
+	present := And(Neq(m.T, IntLit(0)), Select(dom, kk))
+	x.noteWrite(st, mapDomName(mt), m.T)
+	// delete on a nil map is a no-op; the heap cell of reference 0 is never read as a map
+	x.ctx.hwrite(st, mapSizeName(mt), SInt, m.T, Ite(present, Sub(size, IntLit(1)), size))
+	x.ctx.hwrite(st, mapDomName(mt), doms, m.T, Store(dom, kk, False))
 }
 
 func (x *Exec) makeMap(fr *Frame, st *State, in *ssa.MakeMap) *Val {
@@ -242,7 +338,6 @@ func (x *Exec) makeMap(fr *Frame, st *State, in *ssa.MakeMap) *Val {
 }
 
 func (x *Exec) mapUpdate(fr *Frame, st *State, in *ssa.MapUpdate) {
-	x.trusted["A-KEYS"] = true
 	m := x.get(fr, in.Map)
 	k := x.get(fr, in.Key)
 	v := x.get(fr, in.Value)
@@ -252,10 +347,11 @@ func (x *Exec) mapUpdate(fr *Frame, st *State, in *ssa.MapUpdate) {
 	dom := x.ctx.hread(st, mapDomName(mt), doms, m.T)
 	val := x.ctx.hread(st, mapValName(mt), vals, m.T)
 	size := x.ctx.hread(st, mapSizeName(mt), SInt, m.T)
+	kk := x.mapKey(st, k.T, mt.Key())
 	x.noteWrite(st, mapDomName(mt), m.T)
-	x.ctx.hwrite(st, mapSizeName(mt), SInt, m.T, Ite(Select(dom, k.T), size, Add(size, IntLit(1))))
-	x.ctx.hwrite(st, mapDomName(mt), doms, m.T, Store(dom, k.T, True))
-	x.ctx.hwrite(st, mapValName(mt), vals, m.T, Store(val, k.T, v.T))
+	x.ctx.hwrite(st, mapSizeName(mt), SInt, m.T, Ite(Select(dom, kk), size, Add(size, IntLit(1))))
+	x.ctx.hwrite(st, mapDomName(mt), doms, m.T, Store(dom, kk, True))
+	x.ctx.hwrite(st, mapValName(mt), vals, m.T, Store(val, kk, v.T))
 }
 
 func (x *Exec) lookup(fr *Frame, st *State, in *ssa.Lookup) *Val {
@@ -270,12 +366,12 @@ func (x *Exec) lookup(fr *Frame, st *State, in *ssa.Lookup) *Val {
 		x.ctx.assume(st, And(Ge(v, IntLit(0)), Le(v, IntLit(255))))
 		return &Val{T: v, Typ: in.Type()}
 	}
-	x.trusted["A-KEYS"] = true
 	_, _, doms, vals := x.mapSorts(mt)
 	dom := x.ctx.hread(st, mapDomName(mt), doms, m.T)
 	val := x.ctx.hread(st, mapValName(mt), vals, m.T)
-	present := And(Neq(m.T, IntLit(0)), Select(dom, k.T))
-	res := Ite(present, Select(val, k.T), TE.zeroValue(mt.Elem()))
+	kk := x.mapKey(st, k.T, mt.Key())
+	present := And(Neq(m.T, IntLit(0)), Select(dom, kk))
+	res := Ite(present, Select(val, kk), TE.zeroValue(mt.Elem()))
 	x.assumeType(st, res, mt.Elem())
 	rv := &Val{T: res, Typ: mt.Elem()}
 	if in.CommaOk {
@@ -313,6 +409,7 @@ func (x *Exec) nextMap(st *State, it *Iter, tup *types.Tuple) *Val {
 	x.ctx.hwrite(st, it.cell+".visited", doms, it.ref, Ite(ok, Store(visited, k, True), visited))
 	kv := &Val{T: k, Typ: mt.Key()}
 	x.assumeType(st, k, mt.Key())
+	x.registerIterKey(st, k, mt.Key())
 	vv := &Val{T: Select(val, k), Typ: mt.Elem()}
 	x.assumeType(st, vv.T, mt.Elem())
 	return &Val{Typ: tup, Tuple: []*Val{{T: ok, Typ: types.Typ[types.Bool]}, kv, vv}}
